@@ -269,6 +269,7 @@ def units(tier):
     for k in range(0, 8):
         us.append(("zones", k))
     us.append(("mixing",))
+    us.append(("zone_sequence",))
     for k in range(4):
         us.append(("truncated", k))
     return us
@@ -451,6 +452,32 @@ def run_unit(unit, ctx):
                                     {"dform": dname, "tform": tname, "zform": zname, "cfg": cfg["name"], "mixing": True},
                                     accept=False)
                         ctx.outcome("mixing_refused", dkind + tkind + zkind)
+    elif u == "zone_sequence":
+        # one parser instance, the system's local offset changing between parses (DST flip, TZ reset): a missing zone
+        # is resolved by the configuration *at the time of the parse*
+        cfg = CONFIGS[0]
+        parser = make_parser(cfg)
+        texts = ["2015-12-31T06:31:01", "20151231T0631", "2015-365", "2015-W53-4T06"]
+        exp = {"2015-12-31T06:31:01": ("cal", (2015, 12, 31), ("s", Fraction(6), Fraction(31), Fraction(1))),
+               "20151231T0631": ("cal", (2015, 12, 31), ("m", Fraction(6), Fraction(31), Fraction(0))),
+               "2015-365": ("ord", (2015, 365), ("h", Fraction(0), Fraction(0), Fraction(0))),
+               "2015-W53-4T06": ("week", (2015, 53, 4), ("h", Fraction(6), Fraction(0), Fraction(0)))}
+        for seq in ([0, 330, -210, 0, 765, 330], [765, 0], [-210, -210, 60]):
+            for i, seam in enumerate(seq):
+                for text in texts:
+                    rep, f, texp = exp[text]
+                    ctx.state_count += 1
+                    check_parse(ctx, parser, cfg, seam, text, rep, f, texp, expected_zone(cfg, None, seam),
+                                {"kind": "zone_sequence", "cfg": cfg["name"], "text": text, "seams_so_far": seq[:i + 1]},
+                                {"dform": rep, "tform": None, "zform": None, "cfg": "default", "sequence": True},
+                                dump_expected=text)
+        # ... and an explicit zone or an assumed zone is never affected by the system's
+        p2 = make_parser(CONFIGS[2])
+        for seam in (0, 330, -210):
+            check_parse(ctx, p2, CONFIGS[2], seam, "2015-12-31T06:31:01", "cal", (2015, 12, 31),
+                        ("s", Fraction(6), Fraction(31), Fraction(1)), (5, 30),
+                        {"kind": "zone_sequence", "cfg": CONFIGS[2]["name"], "text": "2015-12-31T06:31:01"},
+                        {"dform": "cal", "tform": None, "zform": None, "cfg": CONFIGS[2]["name"], "sequence": True})
     elif u == "truncated":
         run_truncated(ctx, unit[1])
 
@@ -592,7 +619,8 @@ def replay_case(case, ctx):
     units_ = {"form": [u for u in units("quick") if u[0] == "forms"], "year": [u for u in units("quick") if u[0] == "years"],
               "day": [("days", 0)], "time": [u for u in units("quick") if u[0] == "times"],
               "fraction": [u for u in units("thorough") if u[0] == "fractions"],
-              "zone": [u for u in units("quick") if u[0] == "zones"], "mixing": [("mixing",)]}[k]
+              "zone": [u for u in units("quick") if u[0] == "zones"], "mixing": [("mixing",)],
+              "zone_sequence": [("zone_sequence",)]}[k]
     for u in units_:
         if k == "form" and (CONFIGS[u[1]]["name"] != case["cfg"] or u[2] != case["seam"]):
             continue
